@@ -120,6 +120,29 @@ static void s_destroy_val(void *val) {
     }
 }
 
+/* the content hashes in the two build configurations of lookup3.inl: the library's own (default), and
+ * source/hash_table.c compiled a second time with -DVALGRIND (byte-exact tail of hashlittle2's 32-bit path) and its
+ * public symbols prefixed vg_ (props/c02.py: HARNESS.extra_srcs).  Ops ending in `v` use the second set. */
+extern uint64_t vg_aws_hash_byte_cursor_ptr(const void *item);
+extern uint64_t vg_aws_hash_string(const void *item);
+extern uint64_t vg_aws_hash_c_string(const void *item);
+extern uint64_t vg_aws_hash_ptr(const void *item);
+extern uint64_t vg_aws_hash_combine(uint64_t item1, uint64_t item2);
+struct hash_fns {
+    uint64_t (*cursor)(const void *);
+    uint64_t (*string)(const void *);
+    uint64_t (*c_string)(const void *);
+    uint64_t (*ptr)(const void *);
+    uint64_t (*combine)(uint64_t, uint64_t);
+};
+static const struct hash_fns s_default_fns = {
+    aws_hash_byte_cursor_ptr, aws_hash_string, aws_hash_c_string, aws_hash_ptr, aws_hash_combine};
+static const struct hash_fns s_valgrind_fns = {
+    vg_aws_hash_byte_cursor_ptr, vg_aws_hash_string, vg_aws_hash_c_string, vg_aws_hash_ptr, vg_aws_hash_combine};
+static const struct hash_fns *s_fns(const char *op) {
+    return op[strlen(op) - 1] == 'v' ? &s_valgrind_fns : &s_default_fns;
+}
+
 /* a value_eq callback that is not pointer equality: values v<n> are equal when n agrees mod 8 (never sees NULL) */
 static bool s_val_eq_mod8(const void *a, const void *b) {
     long x = (long)((const char *)a - s_valbase - 1), y = (long)((const char *)b - s_valbase - 1);
@@ -366,9 +389,10 @@ int main(void) {
             struct aws_byte_cursor c = {.len = len, .ptr = len ? p : NULL};
             printf("W hashic %016" PRIx64 "\n", aws_hash_byte_cursor_ptr_ignore_case(&c));
             free(p);
-        } else if (!strcmp(t[0], "hl2") && n == 2) {
+        } else if ((!strcmp(t[0], "hl2") || !strcmp(t[0], "hl2v")) && n == 2) {
             /* content hashes with the key placed at every alignment mod 4: exercises the 32-bit, 16-bit and
              * byte paths of hashlittle2 against the byte-wise model */
+            const struct hash_fns *hf = s_fns(t[0]);
             size_t len;
             uint8_t *p = hc_hex_decode(t[1], &len);
             uint8_t *buf = malloc(len + 16);
@@ -378,32 +402,33 @@ int main(void) {
                 memset(buf, 0xEE, len + 16);
                 memcpy(buf + off, p, len);
                 struct aws_byte_cursor c = {.len = len, .ptr = (len == 0 && off == 0) ? NULL : buf + off};
-                hc[off] = aws_hash_byte_cursor_ptr(&c);
+                hc[off] = hf->cursor(&c);
             }
             struct aws_string *str = aws_string_new_from_array(hc_allocator(), p, len);
             HC_CHECK(str);
-            hs = aws_hash_string(str);
+            hs = hf->string(str);
             aws_string_destroy(str);
             for (int off = 0; off < 4; ++off) {
                 memset(buf, 0xEE, len + 16);
                 memcpy(buf + off, p, len);
                 buf[off + len] = 0;
-                hz[off] = aws_hash_c_string((const char *)(buf + off));
+                hz[off] = hf->c_string((const char *)(buf + off));
             }
             /* property monitor: equal contents hash equally wherever they are stored */
             bool same = hc[0] == hc[1] && hc[1] == hc[2] && hc[2] == hc[3] && hc[0] == hs && hz[0] == hz[1] &&
                         hz[1] == hz[2] && hz[2] == hz[3] && (memchr(p, 0, len) != NULL || hz[0] == hs);
-            printf("P hl2 consistent=%d\n", (int)same);
+            printf("P %s consistent=%d\n", t[0], (int)same);
             printf(
-                "W hl2 cur=%016" PRIx64 ",%016" PRIx64 ",%016" PRIx64 ",%016" PRIx64 " str=%016" PRIx64
+                "W %s cur=%016" PRIx64 ",%016" PRIx64 ",%016" PRIx64 ",%016" PRIx64 " str=%016" PRIx64
                 " cstr=%016" PRIx64 ",%016" PRIx64 ",%016" PRIx64 ",%016" PRIx64 "\n",
-                hc[0], hc[1], hc[2], hc[3], hs, hz[0], hz[1], hz[2], hz[3]);
+                t[0], hc[0], hc[1], hc[2], hc[3], hs, hz[0], hz[1], hz[2], hz[3]);
             free(buf);
             free(p);
-        } else if (!strcmp(t[0], "hl2s") && n == 3) {
+        } else if ((!strcmp(t[0], "hl2s") || !strcmp(t[0], "hl2sv")) && n == 3) {
             /* the key as a sub-view of a larger buffer: the bytes FOLLOWING the key vary (given bytes, 0x00, 0xFF, 0x0F,
              * 0xF0 fills), at every alignment mod 4.  hashlittle2's 32-bit path loads whole words in its tail and masks
              * the bytes behind the key off: equal keys must hash equally regardless of their surroundings. */
+            const struct hash_fns *hf = s_fns(t[0]);
             size_t len, alen;
             uint8_t *p = hc_hex_decode(t[1], &len);
             uint8_t *af = hc_hex_decode(t[2], &alen);
@@ -420,7 +445,7 @@ int main(void) {
                         memcpy(buf + off + len, af, alen);
                     }
                     struct aws_byte_cursor c = {.len = len, .ptr = buf + off};
-                    uint64_t h = aws_hash_byte_cursor_ptr(&c);
+                    uint64_t h = hf->cursor(&c);
                     if (v == 0) {
                         hg[off] = h;
                     }
@@ -431,7 +456,7 @@ int main(void) {
                         if (v == 0 && alen > 0) {
                             memcpy(buf + off + len + 1, af, alen);
                         }
-                        uint64_t hz = aws_hash_c_string((const char *)(buf + off));
+                        uint64_t hz = hf->c_string((const char *)(buf + off));
                         if (v == 0) {
                             hzg[off] = hz;
                         }
@@ -441,17 +466,17 @@ int main(void) {
                     }
                 }
             }
-            printf("P hl2s consistent=%d\n", (int)same);
+            printf("P %s consistent=%d\n", t[0], (int)same);
             printf(
-                "W hl2s cur=%016" PRIx64 ",%016" PRIx64 ",%016" PRIx64 ",%016" PRIx64 "\n", hg[0], hg[1], hg[2], hg[3]);
+                "W %s cur=%016" PRIx64 ",%016" PRIx64 ",%016" PRIx64 ",%016" PRIx64 "\n", t[0], hg[0], hg[1], hg[2], hg[3]);
             (void)hzg;
             free(buf);
             free(p);
             free(af);
-        } else if (!strcmp(t[0], "hptr") && n == 2) {
-            printf("W hptr %016" PRIx64 "\n", aws_hash_ptr((const void *)(uintptr_t)strtoull(t[1], NULL, 16)));
-        } else if (!strcmp(t[0], "hcomb") && n == 3) {
-            printf("W hcomb %016" PRIx64 "\n", aws_hash_combine(strtoull(t[1], NULL, 16), strtoull(t[2], NULL, 16)));
+        } else if ((!strcmp(t[0], "hptr") || !strcmp(t[0], "hptrv")) && n == 2) {
+            printf("W %s %016" PRIx64 "\n", t[0], s_fns(t[0])->ptr((const void *)(uintptr_t)strtoull(t[1], NULL, 16)));
+        } else if ((!strcmp(t[0], "hcomb") || !strcmp(t[0], "hcombv")) && n == 3) {
+            printf("W %s %016" PRIx64 "\n", t[0], s_fns(t[0])->combine(strtoull(t[1], NULL, 16), strtoull(t[2], NULL, 16)));
         } else if (!strcmp(t[0], "eqic") && n == 3) {
             size_t la, lb;
             uint8_t *pa = hc_hex_decode(t[1], &la), *pb = hc_hex_decode(t[2], &lb);
